@@ -15,6 +15,8 @@
   `c01_finish_responder` / `c01_finish_initiator` / `c01_dhkey_step`: after the finishing step the
   conversation reports exactly the verified key, the verified in-range DH value as the peer's
   current key, the signed key id, and `ssid = hash2(0x00 ‖ mpi(s))[0:8]` for s = theirPub^ourSecret.
+  `c01_paths_keys_any` / `processAKE_strict_nonfinishing` (repaired code: no retransmission after an
+  ignored message): the same for ANY change of the key context, counters and MAC bookkeeping included.
   Role flag (`sentRevealSig`, which half of the session id is highlighted; repaired code):
   `c01_role_kept_while_encrypted` / `c01_role_kept_processAKE` / `c01_role_pending_processAKE`: a key
   exchange started on an encrypted conversation and not (yet) finished leaves `sentRevealSig` and
@@ -77,5 +79,11 @@ theorem c01_role_kept_processAKE : type_of% @Otr.c01_role_kept_processAKE := @Ot
 theorem c01_role_pending_processAKE : type_of% @Otr.c01_role_pending_processAKE := @Otr.c01_role_pending_processAKE
 
 theorem c01_role_on_finish : type_of% @Otr.c01_role_on_finish := @Otr.c01_role_on_finish
+
+/-- repaired code: only the two finishing combinations change the key context at all -/
+theorem c01_paths_keys_any : type_of% @Otr.c01_paths_keys_any := @Otr.c01_paths_keys_any
+
+/-- repaired code: strict frame outside the finishing combinations, whatever is queued -/
+theorem processAKE_strict_nonfinishing : type_of% @Otr.processAKE_strict_nonfinishing := @Otr.processAKE_strict_nonfinishing
 
 end Otr.C01
